@@ -39,6 +39,10 @@ pub enum ROp {
 		/// the track persists until its sounds have finished
 		#[serde(default)]
 		persist: bool,
+		/// a plain group track without an effect of its own (what is below it still has to hear about
+		/// every rate change)
+		#[serde(default)]
+		bare: bool,
 	},
 	/// play a short sound on the i-th track (keeps a persisting track alive after its handle is gone)
 	PlayOn(usize),
@@ -136,6 +140,7 @@ fn gen_case(seed: u64, index: u64, tier: Tier) -> Case {
 						ROp::AddTrack {
 							parent: if nt > 1 && rng.chance(0.5) { Some(rng.usize_below(nt - 1)) } else { None },
 							persist: rng.chance(0.4),
+							bare: rng.chance(0.3),
 						}
 					}
 					8 if nt > 0 => ROp::PlayOn(rng.usize_below(nt)),
@@ -276,9 +281,14 @@ fn run_orders(case: &Case, ops: &[ROp]) -> CaseResult {
 					}
 				}
 			}
-			ROp::AddTrack { parent, persist } => {
+			ROp::AddTrack { parent, persist, bare } => {
 				let mut b = TrackBuilder::new().sub_track_capacity(8).persist_until_sounds_finish(*persist);
-				let shared = b.add_effect(probe_fx());
+				let shared = if *bare {
+					// (the probe is built but not attached: nothing is ever logged for it)
+					TrackBuilder::new().add_effect(probe_fx())
+				} else {
+					b.add_effect(probe_fx())
+				};
 				let parent = parent.filter(|p| tracks.get(*p).map(|t| t.is_some()).unwrap_or(false));
 				let r = match parent {
 					None => manager.add_sub_track(b),
@@ -958,7 +968,7 @@ impl Check for C16 {
 		CheckInfo {
 			id: "C16",
 			level: "exploration",
-			rule: "five streams. history (1/8): the same scene (1..3 built-in effects at fixed parameters, optionally a sub-frame delay around a filter) rendered at rate r2 from the start, at r1 switched to r2 after a few silent callbacks, and at r2 switched to r1 and back - from the last switch on all must render the same audio; reverb (1/16): a click through a reverb at two device rates, the delay between the first reflection in the left and in the right channel compared in seconds; orders (1/2): seeded sequences over {add (nested) track with a rate-probe effect (40% persist until their sounds finish), play a short sound on a track, add send track with one, drop a track handle (the track lives on while a track below it is alive or - if it persists - a sound on it is unfinished or still queued), change the device sample rate, callback} from 8 kHz to 192 kHz; sched (1/4): a gameplay task adding (nested) tracks against a device task changing the rate and running callbacks, under seeded random schedules at the yield points between reading the shared sample rate and enqueueing the track and inside on_change_sample_rate; seconds (1/4): one scene described in seconds (finite sound at any source rate and playback rate, clock, volume tween, delay echo, a tone behind a low-pass filter) rendered in three worlds at different device rates, the third changing its rate mid-stream, with callbacks of one to two internal buffers or (a third of the cases) of a constant half buffer; non-trivial = at least two effect process calls checked / worlds compared; distinct = hash of the per-callback (rate, probes) sequence, of the yield trace, of the scene parameters",
+			rule: "five streams. history (1/8): the same scene (1..3 built-in effects at fixed parameters, optionally a sub-frame delay around a filter) rendered at rate r2 from the start, at r1 switched to r2 after a few silent callbacks, and at r2 switched to r1 and back - from the last switch on all must render the same audio; reverb (1/16): a click through a reverb at two device rates, the delay between the first reflection in the left and in the right channel compared in seconds; orders (1/2): seeded sequences over {add (nested) track with a rate-probe effect (40% persist until their sounds finish; 30% are bare group tracks without an effect), play a short sound on a track, add send track with one, drop a track handle (the track lives on while a track below it is alive or - if it persists - a sound on it is unfinished or still queued), change the device sample rate, callback} from 8 kHz to 192 kHz; sched (1/4): a gameplay task adding (nested) tracks against a device task changing the rate and running callbacks, under seeded random schedules at the yield points between reading the shared sample rate and enqueueing the track and inside on_change_sample_rate; seconds (1/4): one scene described in seconds (finite sound at any source rate and playback rate, clock, volume tween, delay echo, a tone behind a low-pass filter) rendered in three worlds at different device rates, the third changing its rate mid-stream, with callbacks of one to two internal buffers or (a third of the cases) of a constant half buffer; non-trivial = at least two effect process calls checked / worlds compared; distinct = hash of the per-callback (rate, probes) sequence, of the yield trace, of the scene parameters",
 			assumptions: vec![
 				"seconds-domain comparisons allow two callbacks plus a few frames of slack (events are issued at callback boundaries)".into(),
 				"the delay effect restarts with an empty line when the rate changes; the echo is measured from a click issued after the change".into(),
